@@ -20,6 +20,13 @@ RULE = ('corpus (F6-F9 witnesses, empty-window witnesses) first; exhaustive box:
         'orders; editing the RESULT of a window (rc with features, popping / rewriting its features, its data, its id) and repeating; windows through a '
         'Feature sharing the Location objects of an own feature followed by rc(update_fts); a fresh object colliding on id and length; in-place windows; '
         'every step is compared with the model applied to the current value and the receiver is observed after every step; '
+        'a FEATURE-LIST history stream (a small history language interpreted by the real objects and by run_C06f): lookups by type name '
+        '(seq[name], seq.sl(..)[name], BioBasket(objs)[name] / [:, name] / [i, name], fts.get(name | names), fts.select(name | names), indexing with a '
+        'Feature taken from the list) interleaved with in-place edits of the SAME FeatureList object (sort with keys None / len / tuples and reverse=, '
+        'reverse, item assignment, swap, insert, append, extend / +=, pop / del, remove, clear, changing the type or the locations of a feature) and of '
+        'the sequence (rc with / without features, basket rc, reverse, complement, item assignment, fts re-assigned) on 1-3 objects of equal length with '
+        'the same type names (same features shuffled / same number of features); patterns: lookup - length-preserving edit - same lookup; the same '
+        'lookup on every object around an edit of one; number of features going and coming back; every object observed after every step; '
         'a BioBasket stream (0-7 sequences of different lengths, DNA / RNA / gapped; seqs[i], seqs[a:b:st] with any step, seqs[w], seqs[i, w], '
         'seqs[a:b:st, w] with w a type name / Feature / Location / int / slice, unsupported index shapes; sequences lacking the requested type; '
         'seqs.rc(update_fts) on the basket, on a sliced basket sharing the sequence objects and through sl(); '
@@ -41,7 +48,9 @@ TRUSTED = ['CPython str slicing, str.upper/lower, slice.indices, sorted() stabil
            'rc(update_fts), __setitem__ (seq.py); FeatureList.get/slice/rc, Feature.__init__/rc, LocationTuple.__new__/range/_reverse, '
            'Location.__init__/_reverse, Defect._reverse, Strand._reverse (fts.py) -- see MODELLED_FUNCS',
            'residue complement: C05 model over the regenerated COMPLEMENT tables; Defect/Strand values regenerated (G_flags)',
-           'object identity / aliasing is not modelled (the model is pure): state independence is decided by the history stream only']
+           'object identity / aliasing is not modelled (the model is pure): state independence is decided by the history streams only',
+           'CPython list methods (sort stability, insert clamping, remove by ==) and sugar.core.cane._sorted are modelled (fts_sort, list_ins, '
+           'remove_first) and compared on every feature-list history']
 ASSUMPTIONS = ['Python str restricted to ASCII; sequences over the 17-symbol IUPAC nucleotide alphabet plus U (case-insensitive) inside the '
                'harness domain wf_C06u; the tracking theorems are stated on the DNA domain wf_C06 (C06_wf_dna_in_rna: it lies inside), RNA by '
                'C06_rc_tracking_rna up to U/T (BioSeq.complement decides per extracted piece whether it writes U or T: a minus-strand piece of an '
@@ -60,7 +69,9 @@ MODELLED_FUNCS = {
     'sugar/core/seq.py': ['BioSeq._getitem', 'BioSeq._slice_locs', 'BioSeq.rc', 'BioSeq.__getitem__', 'BioSeq.sl', 'BioSeq.__setitem__',
                           '_Sliceable_GetItem.__init__', '_Sliceable_GetItem.__getitem__',
                           'BioBasket._getitem', 'BioBasket.__getitem__', 'BioBasket.sl', 'BioBasket.rc'],
-    'sugar/core/fts.py': ['FeatureList.slice', 'FeatureList.rc', 'FeatureList.get', 'Feature.rc', 'Feature.__init__',
+    'sugar/core/fts.py': ['FeatureList.slice', 'FeatureList.rc', 'FeatureList.get', 'FeatureList.select', 'FeatureList.sort',
+                          'Feature.__lt__', 'Feature.__eq__', 'Feature.__len__', 'LocationTuple.__lt__', 'Location.__eq__',
+                          'Feature.rc', 'Feature.__init__',
                           'LocationTuple.__new__', 'LocationTuple.range', 'LocationTuple._reverse',
                           'Location.__init__', 'Location._reverse', 'Defect._reverse', 'Strand._reverse'],
 }
@@ -364,6 +375,166 @@ def _history(rng):
     return {'data': data, 'fts': fts, 'steps': steps}
 
 
+FH_TYPES = [['cds', 'CDS', 'gene'], ['cds', 'gene', 'exon', 'Cds'], ['mRNA', 'RNA', 'mrna', 'tRNA'], ['gene', 'Gene', 'GENE', ''], ['cds', 'cds', None, 'gene']]
+
+
+def _fhist(rng):
+    """HISTORIES over the feature list: lookups by type name (seq['t'], seq.sl(..)['t'], seqs[:, 't'], seqs['t'], fts.get, fts.select,
+    indexing with a Feature taken from the list) interleaved with in-place edits of the SAME FeatureList object (sort, reverse, item
+    assignment, swap, insert / append / extend / pop / remove / clear, changing the type or the locations of a feature) and of the
+    sequence (rc with and without features, reverse, complement, item assignment, fts re-assigned), on 1-3 objects of equal length
+    carrying the same type names; every step is compared with the model on the current state and every object is observed after it"""
+    nobj = rng.choice([1, 1, 2, 2, 3])
+    n = rng.choice([6, 8, 10, 12, 20])
+    types = rng.choice(FH_TYPES)
+    tracked = rng.random() < 0.3                                  # update_fts lookups: single-location features only
+    gap = '-' if rng.random() < 0.1 else None
+
+    def mkft():
+        s = _strand(rng)
+        k = 1 if tracked or rng.random() < 0.6 else 2
+        return [rng.choice(types), [_loc(rng, n, s, [], 0.1) for _ in range(k)]]
+
+    def mkfts():
+        fts = [mkft() for _ in range(rng.randint(2, 5))]
+        if rng.random() < 0.7:                                    # unsorted on purpose: the later feature of a type lies further left
+            fts.sort(key=lambda ft: -min(l[0] for l in ft[1]))
+        return fts
+    objs = [{'data': _seq(rng, n, 'dna'), 'fts': mkfts()}]
+    for _ in range(nobj - 1):
+        r = rng.random()
+        fts = [[t, [list(l) for l in ls]] for t, ls in objs[0]['fts']]
+        if r < 0.4:
+            rng.shuffle(fts)                                      # the same features in another order
+        elif r < 0.8:
+            fts = mkfts()
+            while len(fts) != len(objs[0]['fts']):                # the same number of features
+                fts = fts[:-1] if len(fts) > len(objs[0]['fts']) else fts + [mkft()]
+        d = list(objs[0]['data'])
+        rng.shuffle(d)
+        objs.append({'data': ''.join(d), 'fts': fts})
+    pool = [t for t in types if t is not None]
+
+    def name():
+        t = rng.choice(pool + ['missing']) if rng.random() < 0.9 else ''
+        return rng.choice([t, t.upper(), t.lower(), t.swapcase()])
+
+    def names():
+        return [name() for _ in range(rng.choice([0, 1, 2, 2, 3]))]
+
+    def lookup(obj=None):
+        obj = rng.randrange(nobj) if obj is None else obj
+        r = rng.random()
+        if r < 0.4:
+            u = tracked and rng.random() < 0.5
+            st = {'op': 'win', 'win': {'k': 'type', 'name': name()}, 'u': u, 'splitter': None, 'filler': None, 'gap': gap}
+            if rng.random() < 0.15:
+                st['splitter'] = '|'
+                st['filler'] = rng.choice([None, 'N'])
+            if rng.random() < 0.2:
+                st['coerce'] = 'strsub'
+            return {'obj': obj, 'op': 'seq', 'st': st}
+        if r < 0.5:
+            return {'obj': obj, 'op': 'seq', 'st': {'op': 'win', 'win': {'k': 'own', 'idx': rng.randrange(5)}, 'u': tracked and rng.random() < 0.5,
+                                                    'splitter': None, 'filler': None, 'gap': gap}}
+        if r < 0.62:
+            return {'obj': obj, 'op': 'get', 'name': name()}
+        if r < 0.68:
+            return {'obj': obj, 'op': 'getany', 'names': names(), 'tuple': rng.random() < 0.5}
+        if r < 0.76:
+            return {'obj': obj, 'op': 'select', 'name': name()}
+        if r < 0.8:
+            return {'obj': obj, 'op': 'selectany', 'names': names(), 'tuple': rng.random() < 0.5}
+        form = rng.choice(['win', 'pairS', 'pairS', 'pairI'])
+        bidx = {'k': form, 'win': {'k': 'type', 'name': name()}}
+        if form == 'pairI':
+            bidx['i'] = rng.randint(-nobj, nobj - 1)
+        if form == 'pairS':
+            bidx.update(a=rng.choice([None, None, 0, 1]), b=rng.choice([None, None, -1, nobj]), step=rng.choice([None, None, 1, -1]))
+        return {'obj': obj, 'op': 'basket', 'bidx': bidx, 'u': tracked and rng.random() < 0.4, 'splitter': None, 'filler': None, 'gap': gap}
+
+    def keep_edit(obj):
+        """an edit that keeps the number of features"""
+        r = rng.random()
+        if r < 0.3:
+            keys = rng.choice([[0], [0], [0], [1], [1, 0], [0, 1], []])
+            e = {'k': 'sort', 'keys': keys, 'reverse': rng.random() < 0.3, 'plain': rng.random() < 0.6}
+        elif r < 0.45:
+            e = {'k': 'reverse'}
+        elif r < 0.6:
+            e = {'k': 'setitem', 'i': rng.randint(-5, 4), 'f': mkft()}
+        elif r < 0.72:
+            e = {'k': 'swap', 'i': rng.randint(-4, 4), 'j': rng.randint(-4, 4)}
+        elif r < 0.86:
+            e = {'k': 'settype', 'i': rng.randint(-4, 4), 't': name()}
+        else:
+            e = {'k': 'setlocs', 'i': rng.randint(-4, 4), 'ls': mkft()[1]}
+        return {'obj': obj, 'op': 'edit', 'e': e}
+
+    def size_edit(obj):
+        r = rng.random()
+        if r < 0.2:
+            e = {'k': 'insert', 'i': rng.randint(-6, 6), 'f': mkft()}
+        elif r < 0.35:
+            e = {'k': 'append', 'f': mkft()}
+        elif r < 0.5:
+            e = {'k': 'extend', 'fs': [mkft() for _ in range(rng.randint(0, 2))], 'via': rng.choice(['extend', 'iadd', 'iadd_fl', 'iadd_attr'])}
+        elif r < 0.75:
+            e = {'k': 'pop', 'i': rng.randint(-5, 4), 'via': rng.choice(['pop', 'del'])}
+        elif r < 0.95:
+            e = {'k': 'remove', 'i': rng.randint(-4, 4)}
+        else:
+            e = {'k': 'clear'}
+        return {'obj': obj, 'op': 'edit', 'e': e}
+
+    def seq_edit(obj):
+        r = rng.random()
+        if r < 0.35:
+            st = {'op': 'win', 'win': {'k': 'rc'}, 'u': rng.random() < 0.6, 'splitter': None, 'filler': None, 'gap': None}
+        elif r < 0.5:
+            st = {'op': 'reverse'}
+        elif r < 0.6:
+            st = {'op': 'complement'}
+        elif r < 0.75:
+            st = {'op': 'setitem', 'i': rng.randint(-n, n - 1), 'c': rng.choice('ACGT')}
+        elif r < 0.9:
+            st = {'op': 'setfts', 'fts': mkfts()}
+        else:
+            return {'obj': obj, 'op': 'basket', 'bidx': {'k': 'rc', 'via': rng.choice(['direct', 'slice', 'sl'])}, 'u': rng.random() < 0.7,
+                    'splitter': None, 'filler': None, 'gap': None}
+        return {'obj': obj, 'op': 'seq', 'st': st}
+
+    def edit(obj):
+        r = rng.random()
+        return keep_edit(obj) if r < 0.6 else size_edit(obj) if r < 0.8 else seq_edit(obj)
+
+    pat = rng.randrange(5)
+    steps = []
+    if pat == 0:                                                  # lookup, edit of the same list, the same lookup again (and again)
+        lk = lookup()
+        steps = [lk, keep_edit(lk['obj']), dict(lk)]
+        for _ in range(rng.randint(0, 2)):
+            steps += [edit(lk['obj']), dict(lk)]
+    elif pat == 1:                                                # the same lookup on every object, an edit of one, the lookups again
+        lk = lookup(0)
+        every = [dict(lk, obj=k) for k in range(nobj)]
+        steps = every + [edit(rng.randrange(nobj))] + every[::-1]
+    elif pat == 2:                                                # the number of features goes and comes back
+        lk = lookup()
+        o = lk['obj']
+        back = {'obj': o, 'op': 'edit', 'e': rng.choice([{'k': 'append', 'f': mkft()}, {'k': 'insert', 'i': rng.randint(-6, 6), 'f': mkft()}])}
+        gone = {'obj': o, 'op': 'edit', 'e': {'k': 'pop', 'i': rng.randint(-3, 2), 'via': rng.choice(['pop', 'del'])}}
+        steps = [lk] + rng.choice([[gone, back], [back, gone]]) + [dict(lk)]
+    elif pat == 3:                                                # several different lookups around one edit
+        o = rng.randrange(nobj)
+        lks = [lookup(o) for _ in range(rng.randint(2, 3))]
+        steps = lks + [keep_edit(o)] + [dict(x) for x in lks]
+    else:                                                         # random mixture
+        for _ in range(rng.randint(3, 9)):
+            steps.append(lookup() if rng.random() < 0.55 else edit(rng.randrange(nobj)))
+    return {'objs': objs, 'fsteps': steps}
+
+
 TYPE_FAMILIES = [['gene', 'pseudogene'], ['RNA', 'mRNA', 'tRNA', 'ncRNA'], ['exon', 'exon_junction', 'ex'], ['UTR', "5'UTR"],
                  ['cd', 'cds', 'CDSs'], ['', 'gene', None], ['', 'e', 'exon'], ['Gene', 'GENE', 'gene ']]
 
@@ -521,6 +692,8 @@ def gen_cases(rng, tier):
         cases.append(_history(rng))
     for _ in range(8000 if tier == 'thorough' else 450):
         cases.append(_basket_case(rng))
+    for _ in range(6000 if tier == 'thorough' else 400):
+        cases.append(_fhist(rng))
     for _ in range(3000 if tier == 'thorough' else 250):
         cases.append(_type_case(rng))
     nrand = 40000 if tier == 'thorough' else 1600
@@ -654,56 +827,203 @@ def _mutate_result(res, how, shared_fts):
     res.meta.id = 'edited'
 
 
-def _impl_history(case):
-    from sugar import BioSeq
+def _do_hstep(seq, st):
+    """one step of the sequence-level history language on the object seq; returns (value, object to go on with)"""
     from sugar.core.fts import Feature, FeatureList, Location
+    op = st['op']
+    val = None
+    if op == 'win':
+        if st['win']['k'] == 'rc':
+            r = seq.rc(update_fts=True) if st['u'] else seq.rc()
+            assert r is seq
+        else:
+            win = _window(st, seq)
+            kw = _kw(st)
+            res = seq.sl(**kw)[win] if kw else seq[win]
+            val = _state(res)
+            if st.get('mut'):
+                shared = (not st['u']) and st['win']['k'] in ('int', 'slice')
+                _mutate_result(res, st['mut'], shared)
+    elif op == 'reverse':
+        assert seq.reverse() is seq
+    elif op == 'complement':
+        assert seq.complement() is seq
+    elif op == 'setitem':
+        seq[st['i']] = st['c']
+    elif op == 'setdata':
+        seq.data = st['data']
+    elif op == 'setfts':
+        seq.fts = FeatureList([Feature(t, locs=[Location(*l) for l in ls]) for t, ls in st['fts']])
+    elif op == 'new':
+        seq = _build(st)
+    elif op == 'share':
+        if not seq.fts:
+            raise ValueError('no feature')
+        seq.fts = FeatureList(list(seq.fts) + [Feature('shared', locs=seq.fts[st['idx'] % len(seq.fts)].locs)])
+    else:
+        raise ValueError(op)
+    return val, seq
+
+
+def _impl_history(case):
     from framework import canon_exc
     seq = _build(case)
     out = []
     for st in case['steps']:
-        op = st['op']
         try:
-            if op == 'win':
-                if st['win']['k'] == 'rc':
-                    r = seq.rc(update_fts=True) if st['u'] else seq.rc()
-                    assert r is seq
-                    val = None
-                else:
-                    win = _window(st, seq)
-                    kw = _kw(st)
-                    res = seq.sl(**kw)[win] if kw else seq[win]
-                    val = _state(res)
-                    if st.get('mut'):
-                        shared = (not st['u']) and st['win']['k'] in ('int', 'slice')
-                        _mutate_result(res, st['mut'], shared)
-            elif op == 'reverse':
-                assert seq.reverse() is seq
-                val = None
-            elif op == 'complement':
-                assert seq.complement() is seq
-                val = None
-            elif op == 'setitem':
-                seq[st['i']] = st['c']
-                val = None
-            elif op == 'setdata':
-                seq.data = st['data']
-                val = None
-            elif op == 'setfts':
-                seq.fts = FeatureList([Feature(t, locs=[Location(*l) for l in ls]) for t, ls in st['fts']])
-                val = None
-            elif op == 'new':
-                seq = _build(st)
-                val = None
-            elif op == 'share':
-                if not seq.fts:
-                    raise ValueError('no feature')
-                seq.fts = FeatureList(list(seq.fts) + [Feature('shared', locs=seq.fts[st['idx'] % len(seq.fts)].locs)])
-                val = None
-            else:
-                raise ValueError(op)
+            val, seq = _do_hstep(seq, st)
         except Exception as e:                      # the history goes on; the model leaves the object unchanged too
             val = canon_exc(e)
         out.append([val, _state(seq)])
+    return out
+
+
+def _mkft(raw):
+    from sugar.core.fts import Feature, Location
+    t, ls = raw
+    return Feature(t, locs=[Location(a, b, s, d) for a, b, s, d in ls])
+
+
+def _do_fedit(seq, e):
+    """an in-place edit of the FeatureList object seq.fts (the list object stays the same unless the variant says otherwise)"""
+    from sugar.core.fts import FeatureList, Location
+    fts = seq.fts
+    k = e['k']
+    val = None
+    if k == 'sort':
+        keys = [None if c == 0 else len for c in e['keys']]
+        if e.get('plain') and keys == [None]:
+            r = fts.sort(reverse=True) if e['reverse'] else fts.sort()
+        elif e.get('plain') and len(keys) == 1:
+            r = fts.sort(keys[0], reverse=e['reverse'])
+        else:
+            r = fts.sort(tuple(keys), reverse=e['reverse'])
+        assert r is fts, 'sort must return the receiver'
+    elif k == 'reverse':
+        fts.reverse()
+    elif k == 'setitem':
+        ft = _mkft(e['f'])
+        fts[e['i']] = ft
+    elif k == 'insert':
+        fts.insert(e['i'], _mkft(e['f']))
+    elif k == 'append':
+        fts.append(_mkft(e['f']))
+    elif k == 'extend':
+        new = [_mkft(f) for f in e['fs']]
+        via = e.get('via')
+        if via == 'iadd':
+            fts += new
+        elif via == 'iadd_fl':
+            fts += FeatureList(new)
+        elif via == 'iadd_attr':
+            seq.fts += new
+        else:
+            fts.extend(new)
+    elif k == 'pop':
+        if e.get('via') == 'del':
+            val = _canon_fts([fts[e['i']]])[0]
+            del fts[e['i']]
+        else:
+            val = _canon_fts([fts.pop(e['i'])])[0]
+    elif k == 'remove':
+        fts.remove(fts[e['i']])
+    elif k == 'settype':
+        fts[e['i']].type = e['t']
+    elif k == 'setlocs':
+        new = [Location(*l) for l in e['ls']]
+        fts[e['i']].locs = new
+    elif k == 'swap':
+        i, j = e['i'], e['j']
+        fts[i], fts[j] = fts[j], fts[i]
+    elif k == 'clear':
+        fts.clear()
+    else:
+        raise ValueError(k)
+    if e.get('via') != 'iadd_attr':
+        assert seq.fts is fts, 'the feature list object was replaced'
+    return val
+
+
+def _basket_index(ix):
+    form = ix['k']
+    win = _window(ix, None) if 'win' in ix else None
+    if form == 'int':
+        return ix['i']
+    if form == 'slice':
+        return slice(ix['a'], ix['b'], ix['step'])
+    if form == 'win':
+        return win
+    if form == 'pairI':
+        return (ix['i'], win)
+    if form == 'pairS':
+        return (slice(ix['a'], ix['b'], ix['step']), win)
+    if form == 'pairbad':
+        return ('x', win)
+    return (0, 1, 2)
+
+
+def _do_fstep(objs, st):
+    from sugar import BioBasket, BioSeq
+    from sugar.core.fts import FeatureList
+    k = st['obj'] % len(objs)
+    seq = objs[k]
+    op = st['op']
+    if op == 'seq':
+        val, seq2 = _do_hstep(seq, st['st'])
+        assert seq2 is seq
+        return val
+    if op == 'edit':
+        return _do_fedit(seq, st['e'])
+    if op in ('get', 'getany'):
+        arg = st['name'] if op == 'get' else (tuple(st['names']) if st.get('tuple') else list(st['names']))
+        if op == 'get' and st.get('coerce') == 'strsub':
+            arg = _StrSub(arg)
+        r = seq.fts.get(arg)
+        if r is None:
+            return None
+        assert any(r is ft for ft in seq.fts), 'get() must return a feature of the list'
+        return _canon_fts([r])[0]
+    if op in ('select', 'selectany'):
+        arg = st['name'] if op == 'select' else (tuple(st['names']) if st.get('tuple') else list(st['names']))
+        r = seq.fts.select(arg)
+        assert isinstance(r, FeatureList) and all(any(x is ft for ft in seq.fts) for x in r), 'select() must return features of the list'
+        return _canon_fts(r)
+    if op == 'basket':
+        ix = st['bidx']
+        basket = BioBasket(objs)
+        if ix['k'] == 'rc':
+            target = {'direct': basket, 'slice': basket[:], 'sl': basket.sl()[0:len(objs)]}[ix['via']]
+            res = target.rc(update_fts=True) if st['u'] else target.rc()
+            assert res is target and all(a is b for a, b in zip(basket.data, objs))
+            return ['basket', [[int(sq.id), _state(sq)] for sq in basket]]
+        kw = _kw(st)
+        index = _basket_index(ix)
+        res = basket.sl(**kw)[index] if kw else basket[index]
+        if isinstance(res, BioSeq):
+            return ['seq', [int(res.id), _state(res)]]
+        assert isinstance(res, BioBasket), 'basket index must return a BioBasket'
+        return ['basket', [[int(sq.id), _state(sq)] for sq in res]]
+    raise ValueError(op)
+
+
+def _impl_fhist(case):
+    """histories over the feature lists of several objects: every step returns [value, [state of every object]]"""
+    import warnings
+    from framework import canon_exc
+    objs = []
+    with warnings.catch_warnings():
+        warnings.simplefilter('ignore')
+        for k, o in enumerate(case['objs']):
+            seq = _build({'data': o['data'], 'fts': o['fts']})
+            seq.id = str(k)
+            objs.append(seq)
+        out = []
+        for st in case['fsteps']:
+            try:
+                val = _do_fstep(objs, st)
+            except Exception as e:
+                val = canon_exc(e)
+            out.append([val, [_state(o) for o in objs]])
     return out
 
 
@@ -716,21 +1036,7 @@ def _impl_basket(case):
         seqs.append(seq)
     ix = case['bidx']
     form = ix['k']
-    win = _window(ix, None) if 'win' in ix else None
-    if form == 'int':
-        index = ix['i']
-    elif form == 'slice':
-        index = slice(ix['a'], ix['b'], ix['step'])
-    elif form == 'win':
-        index = win
-    elif form == 'pairI':
-        index = (ix['i'], win)
-    elif form == 'pairS':
-        index = (slice(ix['a'], ix['b'], ix['step']), win)
-    elif form == 'pairbad':
-        index = ('x', win)
-    else:
-        index = (0, 1, 2)
+    index = _basket_index(ix)
     basket = BioBasket(seqs)
     if form == 'rc':
         target = {'direct': basket, 'slice': basket[:], 'sl': basket.sl()[0:len(seqs)]}[ix['via']]
@@ -758,6 +1064,8 @@ def _impl_basket(case):
 def impl(case):
     if 'basket' in case:
         return _impl_basket(case)
+    if 'fsteps' in case:
+        return _impl_fhist(case)
     return _impl_history(case) if 'steps' in case else _impl_single(case)
 
 
@@ -847,7 +1155,71 @@ def _bidx_term(ix):
     return 'QBad'
 
 
+def _ft_term(ft):
+    t, ls = ft
+    return '(%s, [%s])' % (_optbs(t), '; '.join(_rawloc(l) for l in ls))
+
+
+def _names_term(names):
+    return '[%s]' % '; '.join(coq_bs(n) for n in names)
+
+
+def _fedit_term(e):
+    k = e['k']
+    if k == 'sort':
+        return '(ESort [%s]%%Z %s)' % ('; '.join(_z(c) for c in e['keys']), coq_bool(e['reverse']))
+    if k == 'reverse':
+        return 'EReverse'
+    if k == 'setitem':
+        return '(ESetItem %s %s)%%Z' % (_z(e['i']), _ft_term(e['f']))
+    if k == 'insert':
+        return '(EInsert %s %s)%%Z' % (_z(e['i']), _ft_term(e['f']))
+    if k == 'append':
+        return '(EAppend %s)%%Z' % _ft_term(e['f'])
+    if k == 'extend':
+        return '(EExtend %s)' % _fts_term(e['fs'])
+    if k == 'pop':
+        return '(EPop %s)%%Z' % _z(e['i'])
+    if k == 'remove':
+        return '(ERemove %s)%%Z' % _z(e['i'])
+    if k == 'settype':
+        return '(ESetType %s%%Z %s)' % (_z(e['i']), coq_bs(e['t']))
+    if k == 'setlocs':
+        return '(ESetLocs %s [%s])%%Z' % (_z(e['i']), '; '.join(_rawloc(l) for l in e['ls']))
+    if k == 'swap':
+        return '(ESwap %s %s)%%Z' % (_z(e['i']), _z(e['j']))
+    if k == 'clear':
+        return 'EClear'
+    raise ValueError(k)
+
+
+def _fstep_term(st):
+    op = st['op']
+    if op == 'seq':
+        t = '(FSeq %s)' % _step_term(st['st'], None)
+    elif op == 'edit':
+        t = '(FEdit %s)' % _fedit_term(st['e'])
+    elif op == 'get':
+        t = '(FGet %s)' % coq_bs(st['name'])
+    elif op == 'getany':
+        t = '(FGetAny %s)' % _names_term(st['names'])
+    elif op == 'select':
+        t = '(FSelect %s)' % coq_bs(st['name'])
+    elif op == 'selectany':
+        t = '(FSelectAny %s)' % _names_term(st['names'])
+    elif op == 'basket':
+        t = '(FBasket %s %s %s %s %s)' % (_bidx_term(st['bidx']), coq_bool(st['u']), _optbs(st.get('splitter')),
+                                          _optbs(st.get('filler')), _optbs(st.get('gap')))
+    else:
+        raise ValueError(op)
+    return '(%d%%nat, %s)' % (st['obj'], t)
+
+
 def model_term(case):
+    if 'fsteps' in case:
+        return 'out (run_C06f [%s] [%s])' % (
+            '; '.join('(%s, %s)' % (coq_bs(o['data']), _fts_term(o['fts'])) for o in case['objs']),
+            '; '.join(_fstep_term(st) for st in case['fsteps']))
     if 'basket' in case:
         return 'out (run_C06b [%s] %s %s %s %s %s)' % (
             '; '.join('(%s, %s)' % (coq_bs(b['data']), _fts_term(b['fts'])) for b in case['basket']), _bidx_term(case['bidx']),
@@ -1010,60 +1382,180 @@ def _canon_raw(fts):
     return [[t, _order53(ls)] for t, ls in fts]
 
 
+def _spec_hstep(state, st, val, after):
+    """one step of the sequence-level language judged on the state the object was in before it: (complaint, expected state
+    afterwards or None when the complaint already covers it)"""
+    data, fts = state
+    op = st['op']
+    why = None
+    exp_state = state
+    if op == 'win' and st['win']['k'] == 'rc':
+        why = spec_step(state, st, after)
+        exp_state = None
+    elif op == 'win':
+        why = spec_step(state, st, val)
+        if st.get('inplace') and not isinstance(val, dict):
+            exp_state = [val[0], fts]
+    elif op == 'reverse':
+        exp_state = [data[::-1], fts]
+    elif op == 'complement':
+        exp_state = [''.join(COMP.get(c, c) for c in data), fts]
+    elif op == 'setitem':
+        i, m = st['i'], len(data)
+        if -m <= i < m:
+            i %= m
+            exp_state = [data[:i] + st['c'] + data[i + 1:], fts]
+        elif val != {'e': 'IndexError'}:
+            why = 'expected IndexError, got %r' % (val,)
+    elif op == 'setdata':
+        exp_state = [st['data'], fts]
+    elif op == 'setfts':
+        exp_state = [data, _canon_raw(st['fts'])]
+    elif op == 'new':
+        exp_state = [st['data'].upper(), _canon_raw(st['fts'])]
+    elif op == 'share':
+        if fts:
+            exp_state = [data, fts + [['shared', fts[st['idx'] % len(fts)][1]]]]
+        elif val != {'e': 'ValueError'}:
+            why = 'expected ValueError, got %r' % (val,)
+    return why, exp_state
+
+
 def _spec_history(case, got):
     """every step judged on the state the object was OBSERVED in before it (so one failure does not cascade)"""
     state = [case['data'].upper(), _canon_raw(case['fts'])]
     if not isinstance(got, list) or len(got) != len(case['steps']):
         return 'history: %r' % (got,)
     for n, (st, (val, after)) in enumerate(zip(case['steps'], got)):
-        op = st['op']
-        data, fts = state
-        why = None
-        exp_state = state
-        if op == 'win' and st['win']['k'] == 'rc':
-            why = spec_step(state, st, after)
-            exp_state = None
-        elif op == 'win':
-            why = spec_step(state, st, val)
-            if st.get('inplace') and not isinstance(val, dict):
-                exp_state = [val[0], fts]
-        elif op == 'reverse':
-            exp_state = [data[::-1], fts]
-        elif op == 'complement':
-            exp_state = [''.join(COMP.get(c, c) for c in data), fts]
-        elif op == 'setitem':
-            i, m = st['i'], len(data)
-            if -m <= i < m:
-                i %= m
-                exp_state = [data[:i] + st['c'] + data[i + 1:], fts]
-            elif val != {'e': 'IndexError'}:
-                why = 'expected IndexError, got %r' % (val,)
-        elif op == 'setdata':
-            exp_state = [st['data'], fts]
-        elif op == 'setfts':
-            exp_state = [data, _canon_raw(st['fts'])]
-        elif op == 'new':
-            exp_state = [st['data'].upper(), _canon_raw(st['fts'])]
-        elif op == 'share':
-            if fts:
-                exp_state = [data, fts + [['shared', fts[st['idx'] % len(fts)][1]]]]
-            elif val != {'e': 'ValueError'}:
-                why = 'expected ValueError, got %r' % (val,)
+        why, exp_state = _spec_hstep(state, st, val, after)
         if why is None and exp_state is not None and after != exp_state:
             why = 'object after the step: expected %r, observed %r' % (exp_state, after)
         if why:
-            return 'step %d (%s): %s' % (n, op, why)
+            return 'step %d (%s): %s' % (n, st['op'], why)
         state = after
     return None
 
 
-def _spec_basket(case, got):
+def _ft_range(ft):
+    return (min(l[0] for l in ft[1]), max(l[1] for l in ft[1]))
+
+
+def _spec_edit(fts, e, val):
+    """an in-place edit of a feature list, on plain Python lists of [type, locations]: (complaint, expected list)"""
+    k = e['k']
+    n = len(fts)
+    new, want = list(fts), None
+
+    def idx(i):
+        return i % n if -n <= i < n else None
+    if k == 'sort':
+        # stable; by position = (start, stop) of the whole range, or by length of the range; several keys: the first one decides first;
+        # reverse=True: descending, features with equal keys keep their order
+        for c in reversed(e['keys']):
+            key = _ft_range if c == 0 else (lambda ft: _ft_range(ft)[1] - _ft_range(ft)[0])
+            ks = sorted(set(key(ft) for ft in new), reverse=e['reverse'])
+            new = [ft for kv in ks for ft in new if key(ft) == kv]
+    elif k == 'reverse':
+        new = new[::-1]
+    elif k == 'setitem':
+        i = idx(e['i'])
+        if i is None:
+            want = {'e': 'IndexError'}
+        else:
+            new[i] = [e['f'][0], _order53(e['f'][1])]
+    elif k == 'insert':
+        i = e['i']
+        i = max(i + n, 0) if i < 0 else min(i, n)
+        new = new[:i] + [[e['f'][0], _order53(e['f'][1])]] + new[i:]
+    elif k == 'append':
+        new = new + [[e['f'][0], _order53(e['f'][1])]]
+    elif k == 'extend':
+        new = new + _canon_raw(e['fs'])
+    elif k == 'pop':
+        i = idx(e['i'])
+        if i is None:
+            want = {'e': 'IndexError'}
+        else:
+            want = new[i]
+            new = new[:i] + new[i + 1:]
+    elif k == 'remove':
+        i = idx(e['i'])
+        if i is None:
+            want = {'e': 'IndexError'}
+        else:
+            j = min(j for j in range(n) if new[j] == new[i])       # the first feature equal to it
+            new = new[:j] + new[j + 1:]
+    elif k == 'settype':
+        i = idx(e['i'])
+        if i is None:
+            want = {'e': 'IndexError'}
+        else:
+            new[i] = [e['t'], new[i][1]]
+    elif k == 'setlocs':
+        i = idx(e['i'])
+        if i is None:
+            want = {'e': 'IndexError'}
+        else:
+            new[i] = [new[i][0], _order53(e['ls'])]
+    elif k == 'swap':
+        i, j = idx(e['i']), idx(e['j'])
+        if i is None or j is None:
+            want = {'e': 'IndexError'}
+        else:
+            new[i], new[j] = new[j], new[i]
+    elif k == 'clear':
+        new = []
+    if val != want:
+        return 'edit %s: expected %r, got %r' % (k, want, val), new
+    return None, new
+
+
+def _spec_fhist(case, got):
+    """histories over feature lists: every lookup is judged on the states OBSERVED before it (first feature of the type in the
+    list order at that time), every edit is the plain list operation, objects not addressed do not change"""
+    states = [[o['data'].upper(), _canon_raw(o['fts'])] for o in case['objs']]
+    if not isinstance(got, list) or len(got) != len(case['fsteps']):
+        return 'history: %r' % (got,)
+    for n, (st, (val, after)) in enumerate(zip(case['fsteps'], got)):
+        k = st['obj'] % len(states)
+        data, fts = states[k]
+        op = st['op']
+        exp = [list(x) for x in states]
+        why = None
+        if op == 'seq':
+            why, e1 = _spec_hstep(states[k], st['st'], val, after[k])
+            exp[k] = e1 if e1 is not None else after[k]
+        elif op == 'edit':
+            why, new = _spec_edit(fts, st['e'], val)
+            exp[k] = [data, new]
+        elif op in ('get', 'getany', 'select', 'selectany'):
+            names = [st['name'].lower()] if 'name' in st else [x.lower() for x in st['names']]
+            hits = [ft for ft in fts if ft[0] is not None and ft[0].lower() in names]
+            want = hits if op.startswith('select') else (hits[0] if hits else None)
+            if val != want:
+                why = 'expected %r, got %r' % (want, val)
+        elif op == 'basket':
+            bc = {'basket': [None] * len(states), 'bidx': st['bidx'], 'u': st['u'], 'gap': st.get('gap'),
+                  'splitter': st.get('splitter'), 'filler': st.get('filler')}
+            why = _spec_basket(bc, val, states=states)
+            if why is None and st['bidx']['k'] == 'rc':
+                exp = [e[1] for e in val[1]]
+        if why is None and after != exp:
+            why = 'objects after the step: expected %r, observed %r' % (exp, after)
+        if why:
+            return 'step %d (%s on object %d): %s' % (n, op if op != 'edit' else 'edit ' + st['e']['k'], k, why)
+        states = after
+    return None
+
+
+def _spec_basket(case, got, states=None):
     """the basket forms are the sequence-level window applied to every selected sequence, in order; the first sequence on which
     the window is an error decides the exception; the selection itself is Python list indexing"""
     ix = case['bidx']
     form = ix['k']
     k = len(case['basket'])
-    states = [[b['data'].upper(), _canon_raw(b['fts'])] for b in case['basket']]
+    if states is None:
+        states = [[b['data'].upper(), _canon_raw(b['fts'])] for b in case['basket']]
     if form in ('pairbad', 'bad'):
         return None if got == {'e': 'TypeError'} else 'expected TypeError, got %r' % (got,)
     if form == 'rc':                      # every sequence reverse-complemented, its features mirrored about its own length
@@ -1121,6 +1613,8 @@ def spec(case, got):
         return _spec_basket(case, got)
     if 'steps' in case:
         return _spec_history(case, got)
+    if 'fsteps' in case:
+        return _spec_fhist(case, got)
     return spec_step([case['data'].upper(), _canon_raw(case['fts'])], case, got)
 
 
@@ -1145,6 +1639,10 @@ def nontrivial(case, got):
         ix = case['bidx']
         return 'basket|%s|%s|u=%d|gap=%d|n=%d|%s' % (ix['k'], ix.get('win', {}).get('k'), case['u'], case.get('gap') is not None,
                                                    min(len(case['basket']), 3), got['e'] if isinstance(got, dict) else 'ok')
+    if 'fsteps' in case:
+        ops = [(st['op'] if st['op'] not in ('seq', 'edit') else st['e']['k'] if st['op'] == 'edit' else
+                (st['st']['op'] if st['st']['op'] != 'win' else st['st']['win']['k'] + ('u' if st['st']['u'] else ''))) for st in case['fsteps']]
+        return 'fhist|%d|%s' % (len(case['objs']), ','.join(ops)) if len(ops) > 1 else None
     if 'steps' in case:
         ops = [(st['op'] if st['op'] != 'win' else st['win']['k'] + ('g' if st.get('gap') is not None else '')
                 + ('u' if st['u'] else '') + ('i' if st.get('inplace') else '') + ('m' if st.get('mut') else ''))
@@ -1174,6 +1672,9 @@ def histkey(case, got):
         ix = case['bidx']
         return ['basket', 'bidx=' + ix['k'], 'bwin=%s' % ix.get('win', {}).get('k'), 'nseqs=%d' % len(case['basket']),
                 'result=' + (got['e'] if isinstance(got, dict) else 'ok')]
+    if 'fsteps' in case:
+        return ['fhist', 'objects=%d' % len(case['objs']), 'fsteps=%d' % len(case['fsteps'])] + sorted(set(
+            'fstep=' + (st['op'] if st['op'] != 'edit' else 'edit.' + st['e']['k']) for st in case['fsteps']))
     n = len(case['data'])
     ln = 'len=' + ('0' if n == 0 else '1-6' if n <= 6 else '7-60' if n <= 60 else '61+')
     if 'steps' in case:
@@ -1188,7 +1689,7 @@ def histkey(case, got):
 def features(case, got):
     if 'basket' in case:
         return {'basket': True}
-    if 'steps' in case:
+    if 'steps' in case or 'fsteps' in case:
         return {'history': True}
     w = case['win']
     return {'window': w['k'], 'update_fts': case['u'], 'gap': case.get('gap') is not None,
@@ -1204,7 +1705,7 @@ def python_snippet(case):
             'print(json.dumps(c06.impl(case)))\n' % json.dumps(case))
 
 
-NO_SHRINK_KEYS = ('k', 'op', 'ctor', 'coerce', 'via')
+NO_SHRINK_KEYS = ('k', 'op', 'ctor', 'coerce', 'via', 'keys', 'plain', 'tuple')
 
 
 def _valid_loc(l):
@@ -1241,9 +1742,67 @@ def _valid_winstep(c):
     return k in ('rc', 'bad')
 
 
+def _valid_hstep(st):
+    op = st['op']
+    if op == 'win':
+        return _valid_winstep(st)
+    if op == 'setitem':
+        return isinstance(st['i'], int) and isinstance(st['c'], str)
+    if op == 'setdata':
+        return isinstance(st['data'], str)
+    if op == 'setfts':
+        return _valid_fts(st['fts'])
+    if op == 'new':
+        return isinstance(st['data'], str) and _valid_fts(st['fts'])
+    if op == 'share':
+        return isinstance(st['idx'], int) and 0 <= st['idx'] < 1000
+    return op in ('reverse', 'complement')
+
+
+def _valid_fstep(st, nobj):
+    if not (isinstance(st['obj'], int) and 0 <= st['obj'] < 1000):
+        return False
+    op = st['op']
+    if op == 'seq':
+        return st['st']['op'] != 'new' and _valid_hstep(st['st'])
+    if op == 'edit':
+        e = st['e']
+        k = e['k']
+        for x in ('i', 'j'):
+            if x in e and not isinstance(e[x], int):
+                return False
+        if k == 'sort':
+            return isinstance(e['keys'], list) and all(c in (0, 1) for c in e['keys']) and isinstance(e['reverse'], bool)
+        if k in ('setitem', 'insert', 'append'):
+            return _valid_fts([e['f']]) and (k == 'append' or 'i' in e)
+        if k == 'extend':
+            return _valid_fts(e['fs']) and e.get('via') in (None, 'extend', 'iadd', 'iadd_fl', 'iadd_attr')
+        if k in ('pop', 'remove'):
+            return 'i' in e
+        if k == 'settype':
+            return isinstance(e['t'], str) and 'i' in e
+        if k == 'setlocs':
+            return isinstance(e['ls'], list) and all(_valid_loc(l) for l in e['ls']) and 'i' in e
+        if k == 'swap':
+            return 'i' in e and 'j' in e
+        return k in ('reverse', 'clear')
+    if op in ('get', 'select'):
+        return isinstance(st['name'], str)
+    if op in ('getany', 'selectany'):
+        return isinstance(st['names'], list) and all(isinstance(x, str) for x in st['names'])
+    if op == 'basket':
+        return valid_case({'basket': [{'data': '', 'fts': []}], 'bidx': st['bidx'], 'u': st['u'], 'gap': st.get('gap'),
+                           'splitter': st.get('splitter'), 'filler': st.get('filler')})
+    return False
+
+
 def valid_case(c):
     """structural validity of a (shrunk) case; semantic validity is decided by wf_C06 in the model"""
     try:
+        if 'fsteps' in c:
+            return (isinstance(c['objs'], list) and len(c['objs']) >= 1 and
+                    all(isinstance(o['data'], str) and _valid_fts(o['fts']) for o in c['objs']) and
+                    all(_valid_fstep(st, len(c['objs'])) for st in c['fsteps']))
         if 'basket' in c:
             ix = c['bidx']
             if not (isinstance(c['basket'], list) and all(isinstance(b['data'], str) and _valid_fts(b['fts']) for b in c['basket'])):
@@ -1359,9 +1918,11 @@ LEVEL_TEXT = ('Machine-checked Coq theorems (49, no axioms) about an executable 
 LEVEL_NOTE = ('Trusted: Coq kernel/vm_compute, translator (G_codes, G_flags), the correspondence harness, CPython str/slice/sorted. '
               'Modelled rather than verified: the functions in MODELLED_FUNCS (every statement of them is executed in the quick tier except '
               'fts.py:738,740 - FeatureList.slice defaults for start/stop None - and fts.py:640 - FeatureList.get with a list of names -, which no '
-              'BioSeq window can reach). Proved vs tested: everything in LEVEL_TEXT is proved for gap=None unless gap is named; TESTED ONLY: '
-              'inplace=True, state independence (caches, aliasing of results and receivers: history '
-              'stream; the model is pure), the Feature(...) argument forms beyond Location lists (C06_run_op_modes shows they build the same model '
+              'BioSeq window can reach (fts.get / fts.select with a list of names are reached by the feature-list histories) - and the foreign-type / '
+              'different-seqid branches of the comparison methods used by sort / remove: fts.py:101, 209-210, 360, 368, 370-373). Proved vs tested: everything in LEVEL_TEXT is proved for gap=None unless gap is named; TESTED ONLY: '
+              'inplace=True, state independence (caches, memos, aliasing of results and receivers: history '
+              'stream and feature-list history stream run_C06f - lookups by type name interleaved with in-place edits of the FeatureList on 1-3 '
+              'objects; the model is pure, so a stale answer disagrees at the first wrong step), the Feature(...) argument forms beyond Location lists (C06_run_op_modes shows they build the same model '
               'value), Strand/Defect validation, which sequences a basket slice with a step selects (list_slice is CPython\'s algorithm copied, '
               'the theorems are parametric in it), RNA residues exactly (the theorems are up to U/T). Under gap x update_fts no theorem says which '
               'of the two paths is right (sugar does not define whether feature coordinates count columns or residues); they are characterised and '
